@@ -10,14 +10,14 @@ from harness.refmodel import freeze
 S = load()
 
 PROPERTY = "C02"
-LEVEL_TEXT = 'Exploration: invariant (rectangular, shape, rows == columns) checked on every live table after every step of generated histories plus directed ragged / zero-row constructions; structural oracles for >>, <<, row slice/mask, transpose twice.'
+LEVEL_TEXT = 'Exploration: invariant (rectangular, shape, rows == columns) checked on every live table after every step of generated histories plus directed ragged / zero-row constructions; structural oracles for >>, <<, row slice/mask, 2-D selection, transpose twice; a directed structure part (tables with repeated / missing names x 16 structural operations incl. short / long rows and iterator columns).'
 LEVEL_NOTE = 'Tables are read column-wise through cols() and row-wise through iteration and t[i]; nested vectors are outside the domain.'
 DESIGN_REF = "DESIGN.md §5 C02"
 ENGINE = "world"
 TECHNIQUE = "model-based property testing over operation histories; invariant (rectangular, shape, row view == column view) checked on every live table after every step, plus structural step oracles (>>, <<, row slice/mask, transpose twice) and ragged-input rejection"
 RULE = ("world programs biased to constructors (dict, list of vectors, Vector([vectors]), >> with vector/table/dict/list, << with "
         "row/rows/table, selections, joins, sorts, .T), zero-row and zero-column tables, ragged inputs in every constructor and in "
-        "attribute assignment, failed updates; plus directed ragged / empty-table cases. Non-trivial = a table reached through >= 2 "
+        "attribute assignment, failed updates; plus directed ragged / empty-table cases and the structure part (any names, zero rows, rows / blocks / narrower tables appended, columns handed over as iterator / generator / tuple / range). Non-trivial = a table reached through >= 2 "
         "structural operations, or a rejected ragged input; distinct = program encoding.")
 ASSUMPTIONS = [
     "a ragged input must end in an exception or in a result that is not a Table; it must never be a Table that violates the invariant",
